@@ -1,7 +1,1438 @@
-(* C07 proofs (placeholder during pipeline bring-up) *)
+(* C07 proofs about Overlay/Robust.v.
+
+   Part 1  basic facts (association lists, mutex lists)
+   Part 2  every procedure of the repaired model returns, with the same mutexes
+           held as on entry, keeps every stored tree, keeps "every listed instance
+           has its tree", and only emits disciplined accesses ([ext])
+   Part 3  step / trace theorems: no crash, no leaked mutex, lock discipline
+   Part 4  the next legitimate operation is served
+   Part 5  refutation witnesses for the unrepaired variants *)
 From Coq Require Import List Arith Bool Lia.
 Import ListNotations.
 From Onet Require Import Overlay.Robust.
 
-Lemma init_clean : leaked init = [].
+(* ---- Part 1 ---------------------------------------------------------------------- *)
+
+Lemma lookup_update : forall l i j e,
+  lookup j (update i e l) = if i =? j then Some e else lookup j l.
+Proof.
+  induction l as [|[k x] r IH]; intros i j e; cbn [update lookup].
+  - rewrite Nat.eqb_sym. reflexivity.
+  - destruct (k =? i) eqn:Eki; cbn [lookup].
+    + apply Nat.eqb_eq in Eki; subst k.
+      destruct (i =? j) eqn:Eij; reflexivity.
+    + rewrite IH. destruct (k =? j) eqn:Ekj; [|reflexivity].
+      apply Nat.eqb_eq in Ekj; subst k. rewrite Nat.eqb_sym in Eki. rewrite Eki. reflexivity.
+Qed.
+
+Lemma lookup_delete : forall l i j,
+  lookup j (delete i l) = if i =? j then None else lookup j l.
+Proof.
+  induction l as [|[k x] r IH]; intros i j; cbn [delete filter lookup fst].
+  - destruct (i =? j); reflexivity.
+  - fold (delete i r). destruct (k =? i) eqn:Eki; cbn [negb lookup].
+    + rewrite IH. apply Nat.eqb_eq in Eki; subst k. destruct (i =? j); reflexivity.
+    + rewrite IH. destruct (k =? j) eqn:Ekj; [|reflexivity].
+      apply Nat.eqb_eq in Ekj; subst k. rewrite Nat.eqb_sym in Eki. rewrite Eki. reflexivity.
+Qed.
+
+Lemma lk_eqb_refl : forall l, lk_eqb l l = true.
+Proof. destruct l; reflexivity. Qed.
+
+Lemma lk_eqb_eq : forall a b, lk_eqb a b = true <-> a = b.
+Proof. destruct a, b; cbn; split; intros H; try reflexivity; try discriminate. Qed.
+
+Lemma remove_lk_notin : forall l H, mem_lk l H = false -> remove_lk l H = H.
+Proof.
+  induction H as [|x r IH]; intros Hn; [reflexivity|].
+  cbn [mem_lk existsb] in Hn. apply orb_false_iff in Hn as [Hx Hr].
+  cbn [remove_lk filter]. rewrite Hx. cbn [negb]. f_equal. apply IH, Hr.
+Qed.
+
+Lemma remove_lk_head : forall l H, mem_lk l H = false -> remove_lk l (l :: H) = H.
+Proof.
+  intros l H Hn. cbn [remove_lk filter]. rewrite lk_eqb_refl. cbn [negb].
+  apply remove_lk_notin, Hn.
+Qed.
+
+Lemma tok_eqb_refl : forall k, tok_eqb k k = true.
+Proof. intros k. unfold tok_eqb. rewrite !Nat.eqb_refl. reflexivity. Qed.
+
+Lemma tok_eqb_eq : forall a b, tok_eqb a b = true <-> a = b.
+Proof.
+  intros [a1 a2 a3 a4 a5 a6] [b1 b2 b3 b4 b5 b6]. unfold tok_eqb. cbn.
+  rewrite !andb_true_iff, !Nat.eqb_eq. split.
+  - intros [[[[[-> ->] ->] ->] ->] ->]. reflexivity.
+  - intros E; inversion E; auto 10.
+Qed.
+
+Lemma mem_tok_In : forall k l, mem_tok k l = true <-> In k l.
+Proof.
+  intros k l. unfold mem_tok. rewrite existsb_exists. split.
+  - intros (x & Hx & E). apply tok_eqb_eq in E. now subst.
+  - intros H. exists k. split; [assumption|apply tok_eqb_refl].
+Qed.
+
+Lemma In_remove_tok : forall k x l, In x (remove_tok k l) -> In x l.
+Proof. intros k x l H. unfold remove_tok in H. apply filter_In in H. tauto. Qed.
+
+(* ---- Part 2: the repaired procedures ------------------------------------------------- *)
+
+(* every listed instance has its tree in the store: TreeNodeInstance.Tree() cannot panic *)
+Definition insts_have (s : ostate) : Prop :=
+  forall k, In k (insts s) -> exists t, lookup (tk_tree k) (store s) = Some (Have t).
+
+(* [ext X m m']: what a procedure may do to the goroutine's state. Stored trees
+   are kept; only ids in X may change their content. *)
+Record ext (X : nat -> Prop) (m m' : mst) : Prop := mkExt {
+  ext_held : held m' = held m;
+  ext_leaked : leaked (os m') = leaked (os m);
+  ext_haves : forall id t, lookup id (store (os m)) = Some (Have t) ->
+                           exists t', lookup id (store (os m')) = Some (Have t');
+  ext_keeps : forall id t, ~ X id -> lookup id (store (os m)) = Some (Have t) ->
+                           lookup id (store (os m')) = Some (Have t);
+  ext_insts : insts_have (os m) -> insts_have (os m');
+  ext_disc : disciplined (evs m) = true -> disciplined (evs m') = true;
+  ext_evs : forall e, In e (evs m) -> In e (evs m') }.
+
+Definition noX : nat -> Prop := fun _ => False.
+
+Lemma ext_refl : forall X m, ext X m m.
+Proof. intros X m. constructor; eauto. Qed.
+
+Lemma ext_trans : forall X a b c, ext X a b -> ext X b c -> ext X a c.
+Proof.
+  intros X a b c [h1 l1 v1 k1 i1 d1 e1] [h2 l2 v2 k2 i2 d2 e2]. constructor.
+  - congruence.
+  - congruence.
+  - intros id t H. destruct (v1 _ _ H) as (t' & H'). eauto.
+  - intros id t Hx H. eauto.
+  - auto.
+  - auto.
+  - auto.
+Qed.
+
+Lemma ext_weaken : forall (X : nat -> Prop) m m', ext noX m m' -> ext X m m'.
+Proof.
+  intros X m m' [h l v k i d e]. constructor; auto.
+Qed.
+
+(* a command that returns, as seen from a state with nothing leaked *)
+Definition returns {A} (X : nat -> Prop) (c : M A) (m : mst) (Q : A -> mst -> Prop) : Prop :=
+  exists a m', c m = Ret a m' /\ ext X m m' /\ Q a m'.
+
+Definition clean (m : mst) : Prop := leaked (os m) = [].
+
+Lemma clean_ext : forall X m m', clean m -> ext X m m' -> clean m'.
+Proof. intros X m m' C E. unfold clean. rewrite (ext_leaked _ _ _ E). exact C. Qed.
+
+Lemma bind_returns : forall A B X (c : M A) (f : A -> M B) m Q R,
+  returns X c m Q ->
+  (forall a m', ext X m m' -> Q a m' -> returns X (f a) m' R) ->
+  returns X (bind c f) m R.
+Proof.
+  intros A B X c f m Q R (a & m1 & E1 & X1 & Q1) Hf.
+  destruct (Hf a m1 X1 Q1) as (b & m2 & E2 & X2 & R2).
+  exists b, m2. split; [|split].
+  - unfold bind. rewrite E1. exact E2.
+  - eapply ext_trans; eassumption.
+  - exact R2.
+Qed.
+
+(* the tree store's methods *)
+Lemma with_store_eq : forall A (f : ostate -> (A * ostate) + crash) m a s',
+  clean m -> mem_lk LStore (held m) = false -> f (os m) = inl (a, s') ->
+  with_store f m = Ret a (mkM s' (held m) (EAccess TStore (LStore :: held m) :: evs m)).
+Proof.
+  intros A f [s H ev] a s' C Hn Ef. unfold clean in C. cbn [os held evs] in *.
+  unfold with_store, bind, acquire, access, get, modify, release, ret. cbn [os held evs].
+  rewrite C, Hn. cbn [mem_lk existsb orb os held evs]. rewrite Ef. cbn [os held evs].
+  rewrite remove_lk_head by exact Hn. reflexivity.
+Qed.
+
+(* a store method whose function keeps stored trees, instances and [leaked] *)
+Definition store_fun_ok (X : nat -> Prop) (s s' : ostate) : Prop :=
+  leaked s' = leaked s /\ insts s' = insts s /\
+  (forall id t, lookup id (store s) = Some (Have t) -> exists t', lookup id (store s') = Some (Have t')) /\
+  (forall id t, ~ X id -> lookup id (store s) = Some (Have t) -> lookup id (store s') = Some (Have t)).
+
+Lemma with_store_returns : forall A X (f : ostate -> (A * ostate) + crash) m a s',
+  clean m -> mem_lk LStore (held m) = false -> f (os m) = inl (a, s') -> store_fun_ok X (os m) s' ->
+  returns X (with_store f) m (fun r m' => r = a /\ os m' = s').
+Proof.
+  intros A X f m a s' C Hn Ef (Hl & Hi & Hv & Hk).
+  exists a, (mkM s' (held m) (EAccess TStore (LStore :: held m) :: evs m)).
+  split; [apply with_store_eq; assumption|]. split; [|split; reflexivity].
+  constructor; cbn [os held evs].
+  - reflexivity.
+  - exact Hl.
+  - exact Hv.
+  - exact Hk.
+  - intros IH k Hk'. rewrite Hi in Hk'. destruct (IH k Hk') as (t & Ht).
+    destruct (Hv _ _ Ht) as (t' & Ht'). eauto.
+  - intros D. cbn [disciplined forallb access_ok owner mem_lk existsb]. rewrite lk_eqb_refl. exact D.
+  - intros e He. right. exact He.
+Qed.
+
+Lemma sfo_same : forall X s, store_fun_ok X s s.
+Proof. intros X s. repeat split; eauto. Qed.
+
+Lemma sfo_removal : forall X s v, store_fun_ok X s (set_removal s v).
+Proof. intros X s v. repeat split; cbn; eauto. Qed.
+
+Lemma sfo_update_nohave : forall X s id e,
+  (forall t, lookup id (store s) <> Some (Have t)) ->
+  store_fun_ok X s (set_store s (update id e (store s))).
+Proof.
+  intros X s id e Hno. repeat split; cbn [set_store leaked insts store].
+  - intros j t Hj. rewrite lookup_update. destruct (id =? j) eqn:E.
+    + apply Nat.eqb_eq in E; subst j. exfalso. eapply Hno, Hj.
+    + eauto.
+  - intros j t _ Hj. rewrite lookup_update. destruct (id =? j) eqn:E.
+    + apply Nat.eqb_eq in E; subst j. exfalso. eapply Hno, Hj.
+    + exact Hj.
+Qed.
+
+Lemma sfo_delete_nohave : forall X s id,
+  (forall t, lookup id (store s) <> Some (Have t)) ->
+  store_fun_ok X s (set_store s (delete id (store s))).
+Proof.
+  intros X s id Hno. repeat split; cbn [set_store leaked insts store].
+  - intros j t Hj. rewrite lookup_delete. destruct (id =? j) eqn:E.
+    + apply Nat.eqb_eq in E; subst j. exfalso. eapply Hno, Hj.
+    + eauto.
+  - intros j t _ Hj. rewrite lookup_delete. destruct (id =? j) eqn:E.
+    + apply Nat.eqb_eq in E; subst j. exfalso. eapply Hno, Hj.
+    + exact Hj.
+Qed.
+
+Lemma sfo_put_tree : forall (X : nat -> Prop) s t,
+  (X (t_id t) \/ forall t0, lookup (t_id t) (store s) <> Some (Have t0)) ->
+  store_fun_ok X s (put_tree t s).
+Proof.
+  intros X s t Hx. unfold put_tree. repeat split; cbn [set_store set_removal leaked insts store].
+  - intros j t0 Hj. rewrite lookup_update. destruct (t_id t =? j) eqn:E; eauto.
+  - intros j t0 Hnx Hj. rewrite lookup_update. destruct (t_id t =? j) eqn:E; [|exact Hj].
+    apply Nat.eqb_eq in E; subst j. destruct Hx as [Hx|Hx]; [contradiction|]. exfalso. eapply Hx, Hj.
+Qed.
+
+Section Repaired.
+Variable X : nat -> Prop.
+
+Ltac store_op :=
+  match goal with
+  | |- returns _ (with_store ?f) ?m _ => idtac
+  end.
+
+Lemma st_lookup_returns : forall id m,
+  clean m -> mem_lk LStore (held m) = false ->
+  returns X (st_lookup id) m (fun r m' => r = lookup id (store (os m)) /\ os m' = os m).
+Proof.
+  intros id m C Hn. unfold st_lookup.
+  eapply with_store_returns; [assumption|assumption|reflexivity|apply sfo_same].
+Qed.
+
+Lemma st_get_refresh_returns : forall id m,
+  clean m -> mem_lk LStore (held m) = false ->
+  returns X (st_get_refresh id) m
+          (fun r m' => r = lookup id (store (os m)) /\ os m' = set_removal (os m) (remove_nat id (removal (os m)))).
+Proof.
+  intros id m C Hn. unfold st_get_refresh.
+  eapply with_store_returns; [assumption|assumption|reflexivity|apply sfo_removal].
+Qed.
+
+Lemma st_register_returns : forall id m,
+  clean m -> mem_lk LStore (held m) = false ->
+  returns X (st_register id) m (fun _ _ => True).
+Proof.
+  intros id m C Hn. unfold st_register.
+  destruct (lookup id (store (os m))) eqn:E.
+  - destruct (with_store_returns _ X (sf_register id) m tt (os m) C Hn) as (a & m' & H1 & H2 & _).
+    + unfold sf_register. rewrite E. reflexivity.
+    + apply sfo_same.
+    + exists a, m'. auto.
+  - destruct (with_store_returns _ X (sf_register id) m tt (set_store (os m) (update id (Req []) (store (os m)))) C Hn)
+      as (a & m' & H1 & H2 & _).
+    + unfold sf_register. rewrite E. reflexivity.
+    + apply sfo_update_nohave. intros t. rewrite E. discriminate.
+    + exists a, m'. auto.
+Qed.
+
+Lemma st_unregister_returns : forall id m,
+  clean m -> mem_lk LStore (held m) = false ->
+  returns X (st_unregister id) m (fun _ _ => True).
+Proof.
+  intros id m C Hn. unfold st_unregister.
+  destruct (lookup id (store (os m))) as [[asked|t]|] eqn:E.
+  - destruct (with_store_returns _ X (sf_unregister id) m tt (set_store (os m) (delete id (store (os m)))) C Hn)
+      as (a & m' & H1 & H2 & _).
+    + unfold sf_unregister. rewrite E. reflexivity.
+    + apply sfo_delete_nohave. intros t. rewrite E. discriminate.
+    + exists a, m'. auto.
+  - destruct (with_store_returns _ X (sf_unregister id) m tt (os m) C Hn) as (a & m' & H1 & H2 & _).
+    + unfold sf_unregister. rewrite E. reflexivity.
+    + apply sfo_same.
+    + exists a, m'. auto.
+  - destruct (with_store_returns _ X (sf_unregister id) m tt (os m) C Hn) as (a & m' & H1 & H2 & _).
+    + unfold sf_unregister. rewrite E. reflexivity.
+    + apply sfo_same.
+    + exists a, m'. auto.
+Qed.
+
+Lemma st_note_asked_returns : forall id p add m,
+  clean m -> mem_lk LStore (held m) = false ->
+  returns X (st_note_asked id p add) m (fun _ _ => True).
+Proof.
+  intros id p add m C Hn. unfold st_note_asked.
+  destruct (lookup id (store (os m))) as [[asked|t]|] eqn:E.
+  - destruct (with_store_returns _ X (sf_note_asked id p add) m tt
+               (set_store (os m) (update id (Req (if add then p :: asked else remove_nat p asked)) (store (os m)))) C Hn)
+      as (a & m' & H1 & H2 & _).
+    + unfold sf_note_asked. rewrite E. reflexivity.
+    + apply sfo_update_nohave. intros t. rewrite E. discriminate.
+    + exists a, m'. auto.
+  - destruct (with_store_returns _ X (sf_note_asked id p add) m tt (os m) C Hn) as (a & m' & H1 & H2 & _).
+    + unfold sf_note_asked. rewrite E. reflexivity.
+    + apply sfo_same.
+    + exists a, m'. auto.
+  - destruct (with_store_returns _ X (sf_note_asked id p add) m tt (os m) C Hn) as (a & m' & H1 & H2 & _).
+    + unfold sf_note_asked. rewrite E. reflexivity.
+    + apply sfo_same.
+    + exists a, m'. auto.
+Qed.
+
+Lemma st_remove_returns : forall id m,
+  clean m -> mem_lk LStore (held m) = false ->
+  returns X (st_remove id) m (fun _ m' => insts (os m') = insts (os m) /\ finished (os m') = finished (os m)).
+Proof.
+  intros id m C Hn. unfold st_remove.
+  destruct (with_store_returns _ X (sf_remove id) m tt
+             (if mem_nat id (removal (os m)) then os m else set_removal (os m) (id :: removal (os m))) C Hn)
+    as (a & m' & H1 & H2 & _ & H3).
+  - reflexivity.
+  - destruct (mem_nat id (removal (os m))); [apply sfo_same|apply sfo_removal].
+  - exists a, m'. split; [exact H1|]. split; [exact H2|]. rewrite H3.
+    destruct (mem_nat id (removal (os m))); split; reflexivity.
+Qed.
+
+Lemma st_get_roster_returns : forall rid nf m,
+  clean m -> mem_lk LStore (held m) = false ->
+  returns X (st_get_roster all_fixed rid nf) m (fun _ m' => os m' = os m).
+Proof.
+  intros rid nf m C Hn. unfold st_get_roster.
+  edestruct (with_store_returns _ X (sf_get_roster all_fixed rid nf) m) as (a & m' & H1 & H2 & _ & H3);
+    [exact C|exact Hn|reflexivity|apply sfo_same|].
+  exists a, m'. auto.
+Qed.
+
+End Repaired.
+
+(* ---- primitives ------------------------------------------------------------------------ *)
+
+Definition hfree {A} (Q : A -> mst -> Prop) : Prop :=
+  forall a m H, Q a m -> Q a (mkM (os m) H (evs m)).
+
+Lemma returns_weaken : forall A X (c : M A) m (Q R : A -> mst -> Prop),
+  returns X c m Q -> (forall a m', ext X m m' -> Q a m' -> R a m') -> returns X c m R.
+Proof. intros A X c m Q R (a & m' & E & Hx & Hq) H. exists a, m'. auto. Qed.
+
+Lemma ret_returns : forall A X (a : A) m, returns X (ret a) m (fun r m' => r = a /\ m' = m).
+Proof. intros. exists a, m. split; [reflexivity|]. split; [apply ext_refl|auto]. Qed.
+
+Lemma get_returns : forall X m, returns X get m (fun r m' => r = os m /\ m' = m).
+Proof. intros. exists (os m), m. split; [reflexivity|]. split; [apply ext_refl|auto]. Qed.
+
+(* a change of the tables that leaves the store alone and only lists instances whose tree is stored *)
+Definition frame_ok (s s' : ostate) : Prop :=
+  leaked s' = leaked s /\ store s' = store s /\
+  (forall k, In k (insts s') -> In k (insts s) \/ exists t, lookup (tk_tree k) (store s) = Some (Have t)).
+
+Lemma modify_returns : forall X f m,
+  frame_ok (os m) (f (os m)) ->
+  returns X (modify f) m (fun _ m' => os m' = f (os m) /\ evs m' = evs m).
+Proof.
+  intros X f m (Hl & Hs & Hi). exists tt, (mkM (f (os m)) (held m) (evs m)).
+  split; [reflexivity|]. split; [|split; reflexivity].
+  constructor; cbn [os held evs]; auto.
+  - rewrite Hs. eauto.
+  - rewrite Hs. auto.
+  - intros IH k Hk. rewrite Hs. destruct (Hi k Hk) as [H|H]; auto.
+Qed.
+
+Lemma emit_returns : forall X e m,
+  access_ok e = true ->
+  returns X (emit e) m (fun _ m' => os m' = os m /\ evs m' = e :: evs m).
+Proof.
+  intros X e m He. exists tt, (mkM (os m) (held m) (e :: evs m)).
+  split; [reflexivity|]. split; [|split; reflexivity].
+  constructor; cbn [os held evs]; eauto.
+  - intros D. cbn [disciplined forallb]. rewrite He. exact D.
+  - intros e' H. right. exact H.
+Qed.
+
+(* an access is disciplined when the owning mutex is held *)
+Lemma access_returns : forall X t m,
+  mem_lk (owner t) (held m) = true ->
+  returns X (access t) m (fun _ m' => os m' = os m).
+Proof.
+  intros X t m Ho. exists tt, (mkM (os m) (held m) (EAccess t (held m) :: evs m)).
+  split; [reflexivity|]. split; [|reflexivity].
+  constructor; cbn [os held evs]; eauto.
+  - intros D. cbn [disciplined forallb access_ok]. rewrite Ho. exact D.
+  - intros e' H. right. exact H.
+Qed.
+
+Lemma send_returns : forall X p r m,
+  returns X (send p r) m (fun ok m' => ok = reachable p /\ os m' = os m /\
+                                       (reachable p = true -> In (ESend p r) (evs m'))).
+Proof.
+  intros X p r m. unfold send. destruct (reachable p) eqn:E.
+  - eapply bind_returns; [apply emit_returns; reflexivity|].
+    intros [] m1 _ (Ho & He). eapply returns_weaken; [apply ret_returns|].
+    intros a m' _ (-> & ->). split; [reflexivity|]. split; [exact Ho|]. intros _. rewrite He. left. reflexivity.
+  - eapply returns_weaken; [apply ret_returns|]. intros a m' _ (-> & ->).
+    split; [reflexivity|]. split; [reflexivity|discriminate].
+Qed.
+
+Lemma locked_returns : forall A X l (c : M A) m (Q : A -> mst -> Prop),
+  clean m -> mem_lk l (held m) = false -> hfree Q ->
+  returns X c (mkM (os m) (l :: held m) (evs m)) Q ->
+  returns X (locked l c) m Q.
+Proof.
+  intros A X l c m Q C Hn HQ (a & m1 & E & [h lk v k i d e] & Hq).
+  cbn [os held evs] in *.
+  exists a, (mkM (os m1) (held m) (evs m1)). split; [|split].
+  - unfold locked, bind, acquire, release, ret. unfold clean in C. rewrite C, Hn. cbn [mem_lk existsb orb].
+    rewrite E. cbn [os held evs]. rewrite h. rewrite remove_lk_head by exact Hn. reflexivity.
+  - constructor; cbn [os held evs]; auto.
+  - apply HQ. exact Hq.
+Qed.
+
+Lemma spawn_returns : forall X (c : M unit) m (Q : unit -> mst -> Prop),
+  hfree Q ->
+  returns X c (mkM (os m) [] (evs m)) Q ->
+  returns X (spawn c) m Q.
+Proof.
+  intros X c m Q HQ (a & m1 & E & [h lk v k i d e] & Hq). cbn [os held evs] in *.
+  exists tt, (mkM (os m1) (held m) (evs m1)). split; [|split].
+  - unfold spawn. rewrite E. reflexivity.
+  - constructor; cbn [os held evs]; auto.
+  - destruct a. apply HQ. exact Hq.
+Qed.
+
+(* loops: an invariant of the goroutine's state that [ext] steps preserve *)
+Lemma miter_returns : forall A X (f : A -> M unit) (P : mst -> Prop) l m,
+  P m ->
+  (forall x m1, P m1 -> returns X (f x) m1 (fun _ m2 => P m2)) ->
+  returns X (miter f l) m (fun _ m' => P m').
+Proof.
+  intros A X f P l. induction l as [|x r IH]; intros m Pm Hf; cbn [miter].
+  - eapply returns_weaken; [apply ret_returns|]. intros a m' _ (_ & ->). exact Pm.
+  - eapply bind_returns; [apply Hf, Pm|]. intros [] m1 _ P1. apply IH; assumption.
+Qed.
+
+(* the standing assumptions about the goroutine's state *)
+Definition ready (H : list lk) (m : mst) : Prop :=
+  clean m /\ held m = H /\ insts_have (os m).
+
+Lemma ready_ext : forall X H m m', ready H m -> ext X m m' -> ready H m'.
+Proof.
+  intros X H m m' (C & Hh & Hi) E. split; [|split].
+  - eapply clean_ext; eassumption.
+  - rewrite (ext_held _ _ _ E). exact Hh.
+  - apply (ext_insts _ _ _ E), Hi.
+Qed.
+
+(* ---- procedures (they do not depend on the fix flags) ---------------------------------- *)
+
+Section Procs.
+Variable X : nat -> Prop.
+
+Ltac hf := let a := fresh in let m := fresh in let H := fresh in
+           intros a m H; cbn [os held evs]; tauto.
+
+(* what it takes for the handler to be called *)
+Definition deliverable (t : stree) (sender : peer) (from : option token) (b : body) (f : token) : Prop :=
+  from = Some f /\ b = BPing /\ exists srv, search t (tk_node f) = Some srv /\ (srv =? sender) = true.
+
+Lemma dispatch_returns : forall k sender from b m t,
+  clean m -> mem_lk LStore (held m) = false ->
+  lookup (tk_tree k) (store (os m)) = Some (Have t) ->
+  returns X (dispatch k sender from b) m
+          (fun _ m' => os m' = os m /\
+                       forall f, deliverable t sender from b f -> In (EDeliver k (tk_node f)) (evs m')).
+Proof.
+  intros k sender from b m t C Hn Ht. unfold dispatch.
+  destruct from as [f|].
+  2:{ eapply returns_weaken; [apply ret_returns|]. intros a m' _ (_ & ->). split; [reflexivity|].
+      intros f (E & _). discriminate. }
+  destruct b.
+  2,3: (eapply returns_weaken; [apply ret_returns|]; intros a m' _ (_ & ->); split; [reflexivity|];
+        intros f' (_ & E & _); discriminate).
+  eapply bind_returns; [apply st_lookup_returns; assumption|].
+  intros e m1 X1 (-> & Ho). rewrite Ht.
+  destruct (search t (tk_node f)) as [srv|] eqn:Es.
+  - destruct (srv =? sender) eqn:Eq.
+    + eapply returns_weaken; [apply emit_returns; reflexivity|].
+      intros a m' _ (Ho' & He). split; [congruence|]. intros f' (E & _ & _). inversion E; subst f'.
+      rewrite He. left. reflexivity.
+    + eapply returns_weaken; [apply ret_returns|]. intros a m' _ (_ & ->). split; [exact Ho|].
+      intros f' (E & _ & srv' & Es' & Eq'). inversion E; subst f'. congruence.
+  - eapply returns_weaken; [apply ret_returns|]. intros a m' _ (_ & ->). split; [exact Ho|].
+    intros f' (E & _ & srv' & Es' & _). inversion E; subst f'. congruence.
+Qed.
+
+Lemma clean_tree_storage_returns : forall k m,
+  clean m -> mem_lk LStore (held m) = false -> mem_lk LInst (held m) = true ->
+  returns X (clean_tree_storage k) m
+          (fun _ m' => insts (os m') = insts (os m) /\ finished (os m') = finished (os m)).
+Proof.
+  intros k m C Hn Hi. unfold clean_tree_storage.
+  eapply bind_returns; [apply access_returns; exact Hi|]. intros [] m1 X1 Ho1.
+  eapply bind_returns; [apply get_returns|]. intros s m2 X2 (-> & ->).
+  destruct (existsb (uses_tree (tk_tree k)) (insts (os m1))).
+  - eapply returns_weaken; [apply ret_returns|]. intros a m' _ (_ & ->). rewrite Ho1. auto.
+  - eapply returns_weaken; [apply st_remove_returns|].
+    + eapply clean_ext; eassumption.
+    + rewrite (ext_held _ _ _ X1). exact Hn.
+    + intros a m' _ (H1 & H2). rewrite H1, H2, Ho1. auto.
+Qed.
+
+Lemma node_delete_returns : forall k m,
+  clean m -> mem_lk LStore (held m) = false -> mem_lk LInst (held m) = true ->
+  returns X (node_delete k) m (fun _ m' => forall x, In x (insts (os m')) -> In x (insts (os m))).
+Proof.
+  intros k m C Hn Hi. unfold node_delete.
+  eapply bind_returns; [apply access_returns; exact Hi|]. intros [] m1 X1 Ho1.
+  eapply bind_returns; [apply get_returns|]. intros s m2 X2 (-> & ->).
+  destruct (mem_tok k (insts (os m1))).
+  2:{ eapply returns_weaken; [apply ret_returns|]. intros a m' _ (_ & ->). rewrite Ho1. auto. }
+  eapply bind_returns.
+  { apply modify_returns. repeat split; cbn [set_insts leaked store insts].
+    intros x Hx. left. eapply In_remove_tok, Hx. }
+  intros [] m3 X3 (Ho3 & _).
+  assert (C3 : clean m3) by (eapply clean_ext; [eapply clean_ext; eassumption|eassumption]).
+  assert (H3 : held m3 = held m) by (rewrite (ext_held _ _ _ X3), (ext_held _ _ _ X1); reflexivity).
+  eapply bind_returns.
+  { apply clean_tree_storage_returns; [exact C3|rewrite H3; exact Hn|rewrite H3; exact Hi]. }
+  intros [] m4 X4 (Hi4 & _).
+  eapply bind_returns.
+  { apply access_returns. rewrite (ext_held _ _ _ X4), H3. exact Hi. }
+  intros [] m5 X5 Ho5.
+  eapply returns_weaken.
+  { apply modify_returns. repeat split; cbn [set_finished leaked store insts]. auto. }
+  intros a m' _ (Ho' & _) x Hx. rewrite Ho' in Hx. cbn [set_finished insts] in Hx.
+  rewrite Ho5, Hi4, Ho3 in Hx. cbn [set_insts insts] in Hx. rewrite <- Ho1. eapply In_remove_tok, Hx.
+Qed.
+
+(* TransmitMsg with the tree in hand *)
+Lemma deliver_hit_returns : forall pm t m,
+  ready [] m -> lookup (tk_tree (p_to pm)) (store (os m)) = Some (Have t) ->
+  returns X (deliver_hit pm t) m
+          (fun _ m' =>
+             forall f, mem_tok (p_to pm) (finished (os m)) = false ->
+                       (mem_tok (p_to pm) (insts (os m)) = true \/
+                        (search t (tk_node (p_to pm)) <> None /\ proto_known (tk_proto (p_to pm)) = true)) ->
+                       deliverable t (p_peer pm) (p_from pm) (p_body pm) f ->
+                       In (EDeliver (p_to pm) (tk_node f)) (evs m')).
+Proof.
+  intros pm t m (C & Hh & Hi) Ht. unfold deliver_hit. set (k := p_to pm) in *.
+  apply locked_returns; [exact C|rewrite Hh; reflexivity|hf|].
+  set (m0 := mkM (os m) (LTransmit :: held m) (evs m)).
+  assert (C0 : clean m0) by exact C.
+  assert (H0 : held m0 = [LTransmit]) by (unfold m0; cbn [held]; rewrite Hh; reflexivity).
+  eapply bind_returns.
+  { apply locked_returns with (Q := fun r m' => r = os m0 /\ os m' = os m0 /\ evs m' = evs m' );
+      [exact C0|rewrite H0; reflexivity|hf|].
+    eapply bind_returns; [apply access_returns; reflexivity|]. intros [] m1 X1 Ho1.
+    eapply returns_weaken; [apply get_returns|]. intros a m' _ (-> & ->). auto. }
+  intros s m1 X1 (-> & Ho1 & _). cbn [os m0].
+  assert (C1 : clean m1) by (eapply clean_ext; eassumption).
+  assert (H1 : held m1 = [LTransmit]) by (rewrite (ext_held _ _ _ X1); exact H0).
+  assert (Ht1 : lookup (tk_tree k) (store (os m1)) = Some (Have t)) by (rewrite Ho1; exact Ht).
+  destruct (mem_tok k (finished (os m))) eqn:Efin.
+  { (* finished: re-arm the removal *)
+    eapply returns_weaken.
+    { apply locked_returns with (Q := fun _ _ => True); [exact C1|rewrite H1; reflexivity|hf|].
+      eapply returns_weaken; [apply clean_tree_storage_returns|]; [exact C1|cbn [held]; rewrite H1; reflexivity
+        |cbn [held]; reflexivity|auto]. }
+    intros a m' _ _ f Hf. discriminate. }
+  destruct (mem_tok k (insts (os m))) eqn:Elive.
+  { (* a listed instance: queue the message *)
+    eapply returns_weaken.
+    { apply spawn_returns with (Q := fun _ m' => forall f, deliverable t (p_peer pm) (p_from pm) (p_body pm) f ->
+                                                       In (EDeliver k (tk_node f)) (evs m')); [hf|].
+      eapply returns_weaken; [eapply dispatch_returns with (t := t)|]; [exact C1|reflexivity|exact Ht1|].
+      intros a m' _ (_ & H). exact H. }
+    intros a m' _ H f _ _ Hd. apply H, Hd. }
+  destruct (search t (tk_node k)) as [srvk|] eqn:Esk.
+  2:{ eapply returns_weaken; [apply ret_returns|]. intros a m' _ _ f _ [E|[E _]] _; [discriminate|congruence]. }
+  (* create the instance *)
+  eapply bind_returns.
+  { apply locked_returns with (Q := fun _ m' => os m' = set_insts (os m1) (k :: insts (os m1)));
+      [exact C1|rewrite H1; reflexivity|hf|].
+    eapply bind_returns; [apply access_returns; reflexivity|]. intros [] m2 X2 Ho2.
+    eapply returns_weaken.
+    { apply modify_returns. repeat split; cbn [set_insts leaked store insts os].
+      intros x [<-|Hx]; [right|left; exact Hx]. rewrite Ho2. cbn [os]. eauto. }
+    intros a m' _ (Ho' & _). rewrite Ho', Ho2. reflexivity. }
+  intros [] m2 X2 Ho2.
+  assert (C2 : clean m2) by (eapply clean_ext; eassumption).
+  assert (H2 : held m2 = [LTransmit]) by (rewrite (ext_held _ _ _ X2); exact H1).
+  eapply bind_returns.
+  { apply locked_returns with (Q := fun _ m' => os m' = set_configs (os m2) (remove_tok k (configs (os m2))));
+      [exact C2|rewrite H2; reflexivity|hf|].
+    eapply bind_returns; [apply access_returns; reflexivity|]. intros [] m3 X3 Ho3.
+    eapply returns_weaken.
+    { apply modify_returns. repeat split; cbn [set_configs leaked store insts os]. auto. }
+    intros a m' _ (Ho' & _). rewrite Ho', Ho3. reflexivity. }
+  intros [] m3 X3 Ho3.
+  assert (C3 : clean m3) by (eapply clean_ext; eassumption).
+  assert (H3 : held m3 = [LTransmit]) by (rewrite (ext_held _ _ _ X3); exact H2).
+  assert (Ht3 : lookup (tk_tree k) (store (os m3)) = Some (Have t)).
+  { rewrite Ho3, Ho2. cbn [set_configs set_insts store]. exact Ht1. }
+  destruct (proto_known (tk_proto k)) eqn:Epk.
+  - eapply bind_returns.
+    { apply locked_returns with (Q := fun _ m' => os m' = os m3); [exact C3|rewrite H3; reflexivity|hf|].
+      eapply returns_weaken; [apply access_returns; reflexivity|]. intros a m' _ H. exact H. }
+    intros [] m4 X4 Ho4.
+    assert (C4 : clean m4) by (eapply clean_ext; eassumption).
+    eapply returns_weaken.
+    { apply spawn_returns with (Q := fun _ m' => forall f, deliverable t (p_peer pm) (p_from pm) (p_body pm) f ->
+                                                       In (EDeliver k (tk_node f)) (evs m')); [hf|].
+      eapply returns_weaken; [eapply dispatch_returns with (t := t)|].
+      - exact C4.
+      - reflexivity.
+      - cbn [os]. rewrite Ho4. exact Ht3.
+      - intros a m' _ (_ & H). exact H. }
+    intros a m' _ H f _ _ Hd. apply H, Hd.
+  - eapply returns_weaken.
+    { apply locked_returns with (Q := fun _ _ => True); [exact C3|rewrite H3; reflexivity|hf|].
+      eapply returns_weaken; [apply node_delete_returns|]; [exact C3|cbn [held]; rewrite H3; reflexivity
+        |cbn [held]; reflexivity|auto]. }
+    intros a m' _ _ f _ [E|[_ E]] _; discriminate.
+Qed.
+
+End Procs.
+
+(* ---- procedures of the repaired variant --------------------------------------------------- *)
+
+Section Fixed.
+Variable X : nat -> Prop.
+
+Ltac hf := let a := fresh in let m := fresh in let H := fresh in
+           intros a m H; cbn [os held evs]; tauto.
+
+Lemma sfo_register : forall id s,
+  store_fun_ok X s (match lookup id (store s) with
+                    | None => set_store s (update id (Req []) (store s))
+                    | Some _ => s end).
+Proof.
+  intros id s. destruct (lookup id (store s)) eqn:E; [apply sfo_same|].
+  apply sfo_update_nohave. intros t. rewrite E. discriminate.
+Qed.
+
+Lemma sfo_note_asked : forall id p (add : bool) s,
+  store_fun_ok X s (match lookup id (store s) with
+                    | Some (Req asked) =>
+                        set_store s (update id (Req (if add then p :: asked else remove_nat p asked)) (store s))
+                    | _ => s end).
+Proof.
+  intros id p add s. destruct (lookup id (store s)) as [[asked|t]|] eqn:E; try apply sfo_same.
+  apply sfo_update_nohave. intros t. rewrite E. discriminate.
+Qed.
+
+(* requestTree: the message is parked; a peer that has not been asked for the tree is asked *)
+Lemma request_tree_returns : forall pm m,
+  ready [] m ->
+  returns X (request_tree all_fixed pm) m
+          (fun _ m' =>
+             In pm (parked (os m')) /\
+             (reachable (p_peer pm) = true ->
+              (lookup (tk_tree (p_to pm)) (store (os m)) = None \/
+               exists asked, lookup (tk_tree (p_to pm)) (store (os m)) = Some (Req asked) /\
+                             mem_nat (p_peer pm) asked = false) ->
+              In (ESend (p_peer pm) (RReqTree (tk_tree (p_to pm)))) (evs m') /\
+              exists asked', lookup (tk_tree (p_to pm)) (store (os m')) = Some (Req asked'))).
+Proof.
+  intros pm m (C & Hh & Hi). unfold request_tree. set (id := tk_tree (p_to pm)). set (p := p_peer pm).
+  eapply bind_returns.
+  { apply locked_returns with (Q := fun _ m' => os m' = set_parked (os m) (parked (os m) ++ [pm]));
+      [exact C|rewrite Hh; reflexivity|hf|].
+    eapply bind_returns; [apply access_returns; reflexivity|]. intros [] m1 X1 Ho1.
+    eapply returns_weaken.
+    { apply modify_returns. repeat split; cbn [set_parked leaked store insts]. auto. }
+    intros a m' _ (Ho' & _). rewrite Ho', Ho1. reflexivity. }
+  intros [] m1 X1 Ho1.
+  assert (C1 : clean m1) by (eapply clean_ext; eassumption).
+  assert (H1 : held m1 = []) by (rewrite (ext_held _ _ _ X1); exact Hh).
+  assert (Hp1 : In pm (parked (os m1))).
+  { rewrite Ho1. cbn [set_parked parked]. apply in_or_app. right. left. reflexivity. }
+  assert (Hs1 : store (os m1) = store (os m)) by (rewrite Ho1; reflexivity).
+  eapply bind_returns; [apply st_lookup_returns; [exact C1|rewrite H1; reflexivity]|].
+  intros e m2 X2 (-> & Ho2).
+  assert (C2 : clean m2) by (eapply clean_ext; eassumption).
+  assert (H2 : held m2 = []) by (rewrite (ext_held _ _ _ X2); exact H1).
+  rewrite Hs1.
+  destruct (lookup id (store (os m))) as [[asked|t]|] eqn:El.
+  - (* requested before *)
+    cbn [f71 all_fixed].
+    destruct (mem_nat p asked) eqn:Ea.
+    { eapply returns_weaken; [apply ret_returns|]. intros a m' _ (_ & ->). rewrite Ho2. split; [exact Hp1|].
+      intros _ [E|(asked0 & E & E')]; [discriminate|]. inversion E; subst asked0. congruence. }
+    eapply bind_returns.
+    { unfold st_note_asked. eapply with_store_returns; [exact C2|rewrite H2; reflexivity|reflexivity|].
+      apply sfo_note_asked. }
+    intros [] m3 X3 (_ & Ho3).
+    assert (Hl3 : lookup id (store (os m3)) = Some (Req (p :: asked))).
+    { rewrite Ho3, Ho2, Hs1, El. cbn [set_store store]. rewrite lookup_update, Nat.eqb_refl. reflexivity. }
+    assert (Hp3 : In pm (parked (os m3))).
+    { rewrite Ho3, Ho2. destruct (lookup id (store (os m1))) as [[?|?]|]; cbn [set_store parked]; exact Hp1. }
+    eapply bind_returns; [apply send_returns|]. intros ok m4 X4 (Eok & Ho4 & Hsend).
+    destruct ok.
+    + eapply returns_weaken; [apply ret_returns|]. intros a m' _ (_ & ->). rewrite Ho4. split; [exact Hp3|].
+      intros Hr _. split; [apply Hsend, Hr|]. eauto.
+    + eapply returns_weaken.
+      { unfold st_note_asked. eapply with_store_returns;
+          [eapply clean_ext; [eapply clean_ext; eassumption|eassumption]
+          |rewrite (ext_held _ _ _ X4), (ext_held _ _ _ X3), H2; reflexivity|reflexivity|apply sfo_note_asked]. }
+      intros a m' Hx (_ & Ho'). split.
+      * rewrite Ho', Ho4. destruct (lookup id (store (os m3))) as [[?|?]|]; cbn [set_store parked]; exact Hp3.
+      * intros Hr _. split; [apply (ext_evs _ _ _ Hx), Hsend, Hr|].
+        rewrite Ho', Ho4, Hl3. cbn [set_store store]. rewrite lookup_update, Nat.eqb_refl. eauto.
+  - eapply returns_weaken; [apply ret_returns|]. intros a m' _ (_ & ->). rewrite Ho2. split; [exact Hp1|].
+    intros _ [E|(asked0 & E & _)]; discriminate.
+  - (* unknown id: register it, ask the sender *)
+    eapply bind_returns.
+    { unfold st_register. eapply with_store_returns; [exact C2|rewrite H2; reflexivity|reflexivity|apply sfo_register]. }
+    intros [] m3 X3 (_ & Ho3).
+    assert (C3 : clean m3) by (eapply clean_ext; eassumption).
+    assert (H3 : held m3 = []) by (rewrite (ext_held _ _ _ X3); exact H2).
+    assert (Hl3 : lookup id (store (os m3)) = Some (Req [])).
+    { rewrite Ho3, Ho2, Hs1, El. cbn [set_store store]. rewrite lookup_update, Nat.eqb_refl. reflexivity. }
+    assert (Hp3 : In pm (parked (os m3))).
+    { rewrite Ho3, Ho2. destruct (lookup id (store (os m1))); cbn [set_store parked]; exact Hp1. }
+    cbn [f71 all_fixed].
+    eapply bind_returns.
+    { unfold st_note_asked. eapply with_store_returns; [exact C3|rewrite H3; reflexivity|reflexivity|apply sfo_note_asked]. }
+    intros [] m4 X4 (_ & Ho4).
+    assert (Hl4 : lookup id (store (os m4)) = Some (Req [p])).
+    { rewrite Ho4, Hl3. cbn [set_store store]. rewrite lookup_update, Nat.eqb_refl. reflexivity. }
+    assert (Hp4 : In pm (parked (os m4))).
+    { rewrite Ho4, Hl3. cbn [set_store parked]. exact Hp3. }
+    eapply bind_returns; [apply send_returns|]. intros ok m5 X5 (Eok & Ho5 & Hsend).
+    destruct ok.
+    + eapply returns_weaken; [apply ret_returns|]. intros a m' _ (_ & ->). rewrite Ho5. split; [exact Hp4|].
+      intros Hr _. split; [apply Hsend, Hr|]. eauto.
+    + eapply returns_weaken.
+      { unfold st_unregister. eapply with_store_returns;
+          [eapply clean_ext; [eapply clean_ext; eassumption|eassumption]
+          |rewrite (ext_held _ _ _ X5), (ext_held _ _ _ X4), H3; reflexivity|reflexivity|].
+        rewrite Ho5, Hl4. apply sfo_delete_nohave. intros t. rewrite Hl4. discriminate. }
+      intros a m' _ (_ & Ho'). split.
+      * rewrite Ho', Ho5, Hl4. cbn [set_store parked]. exact Hp4.
+      * intros Hr. fold p in Hr. rewrite Hr in Eok. discriminate.
+Qed.
+
+
+(* the conditions under which TransmitMsg hands a message to the protocol's handler *)
+Definition will_deliver (s : ostate) (t : stree) (pm : pmsg) (f : token) : Prop :=
+  mem_tok (p_to pm) (finished s) = false /\
+  (mem_tok (p_to pm) (insts s) = true \/
+   (search t (tk_node (p_to pm)) <> None /\ proto_known (tk_proto (p_to pm)) = true)) /\
+  deliverable t (p_peer pm) (p_from pm) (p_body pm) f.
+
+Lemma transmit_returns : forall sender from to b m,
+  ready [] m ->
+  returns X (transmit all_fixed sender from to b) m
+          (fun _ m' =>
+             forall k, to = Some k ->
+               (forall t f, lookup (tk_tree k) (store (os m)) = Some (Have t) ->
+                            will_deliver (os m) t (mkP sender from k b) f ->
+                            In (EDeliver k (tk_node f)) (evs m')) /\
+               ((forall t, lookup (tk_tree k) (store (os m)) <> Some (Have t)) ->
+                In (mkP sender from k b) (parked (os m')) /\
+                (reachable sender = true ->
+                 (lookup (tk_tree k) (store (os m)) = None \/
+                  exists asked, lookup (tk_tree k) (store (os m)) = Some (Req asked) /\ mem_nat sender asked = false) ->
+                 In (ESend sender (RReqTree (tk_tree k))) (evs m') /\
+                 exists asked', lookup (tk_tree k) (store (os m')) = Some (Req asked')))).
+Proof.
+  intros sender from to b m R. pose proof R as (C & Hh & Hi). unfold transmit.
+  destruct to as [k|].
+  2:{ cbn [f05 all_fixed]. eapply returns_weaken; [apply ret_returns|]. intros a m' _ _ k E. discriminate. }
+  eapply bind_returns; [apply st_get_refresh_returns; [exact C|rewrite Hh; reflexivity]|].
+  intros e m1 X1 (-> & Ho1).
+  assert (R1 : ready [] m1) by (eapply ready_ext; eassumption).
+  assert (Hs1 : store (os m1) = store (os m)) by (rewrite Ho1; reflexivity).
+  assert (Hi1 : insts (os m1) = insts (os m)) by (rewrite Ho1; reflexivity).
+  assert (Hf1 : finished (os m1) = finished (os m)) by (rewrite Ho1; reflexivity).
+  destruct (lookup (tk_tree k) (store (os m))) as [[asked|t]|] eqn:El.
+  - eapply returns_weaken; [apply request_tree_returns; exact R1|].
+    intros a m' _ (Hp & Hq) k' E. inversion E; subst k'. split.
+    + intros t f Ht. rewrite El in Ht. discriminate Ht.
+    + intros _. split; [exact Hp|]. cbn [p_to p_peer] in Hq. rewrite Hs1 in Hq. exact Hq.
+  - eapply returns_weaken.
+    { apply deliver_hit_returns; [exact R1|]. cbn [p_to]. rewrite Hs1. exact El. }
+    intros a m' _ Hd k' E. inversion E; subst k'. split.
+    + intros t' f Ht (W1 & W2 & W3). rewrite El in Ht. inversion Ht; subst t'.
+      apply Hd; cbn [p_to p_peer p_from p_body] in *; rewrite ?Hf1, ?Hi1; assumption.
+    + intros Hno. exfalso. exact (Hno _ El).
+  - eapply returns_weaken; [apply request_tree_returns; exact R1|].
+    intros a m' _ (Hp & Hq) k' E. inversion E; subst k'. split.
+    + intros t f Ht. rewrite El in Ht. discriminate Ht.
+    + intros _. split; [exact Hp|]. cbn [p_to p_peer] in Hq. rewrite Hs1 in Hq. exact Hq.
+Qed.
+
+(* the flush goroutine *)
+Lemma flush_returns : forall t m,
+  ready [] m ->
+  returns X (flush all_fixed t) m
+          (fun _ m' =>
+             forall pm f,
+               filter (fun pm => tk_tree (p_to pm) =? t_id t) (parked (os m)) = [pm] ->
+               lookup (t_id t) (store (os m)) = Some (Have t) ->
+               will_deliver (os m) t pm f ->
+               In (EDeliver (p_to pm) (tk_node f)) (evs m')).
+Proof.
+  intros t m R. pose proof R as (C & Hh & Hi). unfold flush.
+  eapply bind_returns.
+  { apply locked_returns with
+      (Q := fun r m' => r = filter (fun pm => tk_tree (p_to pm) =? t_id t) (parked (os m)) /\
+                        os m' = set_parked (os m) (filter (fun pm => negb (tk_tree (p_to pm) =? t_id t)) (parked (os m))));
+      [exact C|rewrite Hh; reflexivity|hf|].
+    eapply bind_returns; [apply access_returns; reflexivity|]. intros [] m1 X1 Ho1.
+    eapply bind_returns; [apply get_returns|]. intros s m2 X2 (-> & ->).
+    eapply bind_returns.
+    { apply modify_returns. repeat split; cbn [set_parked leaked store insts]. auto. }
+    intros [] m3 X3 (Ho3 & _).
+    eapply returns_weaken; [apply ret_returns|]. intros a m' _ (-> & ->).
+    rewrite Ho3, Ho1. cbn [os]. auto. }
+  intros mine m1 X1 (-> & Ho1).
+  assert (R1 : ready [] m1) by (eapply ready_ext; eassumption).
+  remember (filter (fun pm => tk_tree (p_to pm) =? t_id t) (parked (os m))) as mine eqn:Em.
+  destruct mine as [|pm0 [|pm1 rest]].
+  - eapply returns_weaken; [apply ret_returns|]. intros a m' _ _ pm f E. discriminate.
+  - cbn [miter]. eapply bind_returns; [apply transmit_returns; exact R1|].
+    intros [] m2 X2 Hq. eapply returns_weaken; [apply ret_returns|]. intros a m' _ (_ & ->).
+    intros pm f E Ht W. inversion E; subst pm0.
+    assert (Et : tk_tree (p_to pm) = t_id t).
+    { assert (Hin : In pm (filter (fun pm => tk_tree (p_to pm) =? t_id t) (parked (os m)))) by (rewrite <- Em; left; reflexivity).
+      apply filter_In in Hin. apply Nat.eqb_eq, Hin. }
+    destruct (Hq (p_to pm) eq_refl) as (Hd & _).
+    destruct pm as [pp pf pt pb]. cbn [p_to p_peer p_from p_body] in *.
+    apply (Hd t f).
+    + rewrite Ho1. cbn [set_parked store]. rewrite Et. exact Ht.
+    + rewrite Ho1. exact W.
+  - eapply returns_weaken.
+    { apply miter_returns with (P := ready []); [exact R1|].
+      intros pm m2 R2. eapply returns_weaken; [apply transmit_returns; exact R2|].
+      intros a m' Hx _. eapply ready_ext; eassumption. }
+    intros a m' _ _ pm f E. discriminate.
+Qed.
+
+(* RegisterTree, called by a service: the only way the content of a stored tree changes *)
+Lemma register_tree_returns : forall t m,
+  ready [] m -> X (t_id t) ->
+  returns X (register_tree all_fixed t) m (fun _ _ => True).
+Proof.
+  intros t m R Hx. pose proof R as (C & Hh & Hi). unfold register_tree.
+  eapply bind_returns.
+  { unfold st_set. eapply with_store_returns; [exact C|rewrite Hh; reflexivity|reflexivity|].
+    apply sfo_put_tree. left. exact Hx. }
+  intros [] m1 X1 (_ & Ho1).
+  assert (R1 : ready [] m1) by (eapply ready_ext; eassumption).
+  apply spawn_returns; [hf|].
+  eapply returns_weaken; [apply flush_returns|auto]. destruct R1 as (C1 & H1 & I1). repeat split; assumption.
+Qed.
+
+(* a tree that came from a peer is stored only where no tree is stored *)
+Lemma store_peer_tree_returns : forall t m,
+  clean m -> mem_lk LStore (held m) = false -> insts_have (os m) ->
+  returns X (store_peer_tree all_fixed t) m
+          (fun _ m' =>
+             forall pm f,
+               (forall t0, lookup (t_id t) (store (os m)) <> Some (Have t0)) ->
+               filter (fun pm => tk_tree (p_to pm) =? t_id t) (parked (os m)) = [pm] ->
+               will_deliver (os m) t pm f ->
+               (~ X (t_id t) -> lookup (t_id t) (store (os m')) = Some (Have t)) /\
+               In (EDeliver (p_to pm) (tk_node f)) (evs m')).
+Proof.
+  intros t m C Hn Hi. unfold store_peer_tree. cbn [f72 all_fixed].
+  destruct (lookup (t_id t) (store (os m))) as [[asked|t0]|] eqn:El.
+  2:{ (* a tree is stored under this id: nothing happens *)
+      eapply bind_returns.
+      { unfold st_set_if_absent. eapply with_store_returns; [exact C|exact Hn| |apply sfo_same].
+        unfold sf_set_if_absent. rewrite El. reflexivity. }
+      intros ok m1 X1 (-> & Ho1). eapply returns_weaken; [apply ret_returns|].
+      intros a m' _ _ pm f Hno. exfalso. exact (Hno _ eq_refl). }
+  all: eapply bind_returns;
+    [unfold st_set_if_absent; eapply with_store_returns; [exact C|exact Hn| |apply sfo_put_tree; right; intros t0; rewrite El; discriminate];
+     unfold sf_set_if_absent; rewrite El; reflexivity|].
+  all: intros ok m1 X1 (-> & Ho1).
+  all: assert (Hl1 : lookup (t_id t) (store (os m1)) = Some (Have t))
+         by (rewrite Ho1; unfold put_tree; cbn [set_store store]; rewrite lookup_update, Nat.eqb_refl; reflexivity).
+  all: assert (C1 : clean m1) by (eapply clean_ext; eassumption).
+  all: assert (I1 : insts_have (os m1)) by (apply (ext_insts _ _ _ X1), Hi).
+  all: eapply returns_weaken;
+    [apply spawn_returns with
+       (Q := fun _ m' => forall pm f,
+                filter (fun pm => tk_tree (p_to pm) =? t_id t) (parked (os m1)) = [pm] ->
+                lookup (t_id t) (store (os m1)) = Some (Have t) ->
+                will_deliver (os m1) t pm f -> In (EDeliver (p_to pm) (tk_node f)) (evs m'));
+       [hf|eapply returns_weaken; [apply flush_returns; repeat split; assumption|];
+           intros ? ? _ H; cbn [os] in H; exact H]|].
+  all: intros a m' Hx Hq pm f _ Hf W; split;
+    [ intros Hnx; apply (ext_keeps _ _ _ Hx); assumption
+    | apply Hq; [rewrite Ho1; exact Hf|exact Hl1|rewrite Ho1; exact W] ].
+Qed.
+
+Lemma make_tree_fixed : forall tm ro,
+  make_tree all_fixed tm ro = MTErr \/
+  exists c, tm_children tm = c :: tl (tm_children tm) /\ ro_id ro = tm_roster tm /\
+            make_tree all_fixed tm ro = MTOk (mkTree (tm_tree tm) ro c).
+Proof.
+  intros tm ro. unfold make_tree. cbn [f06 f70 all_fixed].
+  destruct (ro_id ro =? tm_roster tm) eqn:E; cbn [negb]; [|left; reflexivity].
+  destruct (tm_children tm) as [|c r]; [left; reflexivity|].
+  destruct (forallb _ (nodes_of c)); [|left; reflexivity].
+  destruct (forallb _ (nodes_of c)); [|left; reflexivity].
+  right. exists c. apply Nat.eqb_eq in E. auto.
+Qed.
+
+(* handleSendTree *)
+Lemma handle_send_tree_returns : forall otm oro m,
+  clean m -> mem_lk LStore (held m) = false -> insts_have (os m) ->
+  returns X (handle_send_tree all_fixed otm oro) m
+          (fun _ m' =>
+             forall tm ro t pm f,
+               otm = Some tm -> oro = Some ro -> tm_tree tm <> 0 ->
+               make_tree all_fixed tm ro = MTOk t ->
+               (exists asked, lookup (t_id t) (store (os m)) = Some (Req asked)) ->
+               filter (fun pm => tk_tree (p_to pm) =? t_id t) (parked (os m)) = [pm] ->
+               will_deliver (os m) t pm f ->
+               (~ X (t_id t) -> lookup (t_id t) (store (os m')) = Some (Have t)) /\
+               In (EDeliver (p_to pm) (tk_node f)) (evs m')).
+Proof.
+  intros otm oro m C Hn Hi. unfold handle_send_tree.
+  destruct otm as [tm|].
+  2:{ eapply returns_weaken; [apply ret_returns|]. intros a m' _ _ tm ro t pm f E. discriminate. }
+  destruct (tm_tree tm =? 0) eqn:E0.
+  { eapply returns_weaken; [apply ret_returns|]. intros a m' _ _ tm' ro t pm f E _ Hz.
+    inversion E; subst tm'. apply Nat.eqb_eq in E0. contradiction. }
+  destruct oro as [ro|].
+  2:{ eapply returns_weaken; [apply ret_returns|]. intros a m' _ _ tm' ro t pm f _ E. discriminate. }
+  eapply bind_returns; [apply st_lookup_returns; assumption|].
+  intros e m1 X1 (-> & Ho1).
+  assert (C1 : clean m1) by (eapply clean_ext; eassumption).
+  assert (H1 : mem_lk LStore (held m1) = false) by (rewrite (ext_held _ _ _ X1); exact Hn).
+  assert (I1 : insts_have (os m1)) by (apply (ext_insts _ _ _ X1), Hi).
+  destruct (lookup (tm_tree tm) (store (os m))) as [e|] eqn:El.
+  2:{ eapply returns_weaken; [apply ret_returns|]. intros a m' _ _ tm' ro' t pm f E1 E2 _ Hm (asked & Ha).
+      inversion E1; subst tm'. inversion E2; subst ro'.
+      destruct (make_tree_fixed tm ro) as [Em|(c & _ & _ & Em)]; rewrite Em in Hm; [discriminate|].
+      inversion Hm; subst t. cbn [t_id] in Ha. congruence. }
+  destruct (make_tree_fixed tm ro) as [Em|(c & _ & _ & Em)]; rewrite Em.
+  { eapply returns_weaken; [apply ret_returns|]. intros a m' _ _ tm' ro' t pm f E1 E2 _ Hm.
+    inversion E1; subst tm'. inversion E2; subst ro'. rewrite Em in Hm. discriminate. }
+  eapply returns_weaken; [apply store_peer_tree_returns; assumption|].
+  intros a m' _ Hq tm' ro' t pm f E1 E2 _ Hm (asked & Ha) Hf W.
+  inversion E1; subst tm'. inversion E2; subst ro'. rewrite Em in Hm. inversion Hm; subst t.
+  apply Hq.
+  - intros t0. rewrite Ho1, Ha. discriminate.
+  - rewrite Ho1. exact Hf.
+  - rewrite Ho1. exact W.
+Qed.
+
+Lemma handle_request_tree_returns : forall p id ver m,
+  clean m -> mem_lk LStore (held m) = false ->
+  returns X (handle_request_tree p id ver) m
+          (fun _ m' =>
+             forall t, lookup id (store (os m)) = Some (Have t) -> reachable p = true ->
+                       In (ESend p (if ver =? 0 then RTreeMarshal (t_id t) (ro_id (t_roster t)) (root_node t)
+                                    else RRespTree (t_id t) (ro_id (t_roster t)) (root_node t))) (evs m')).
+Proof.
+  intros p id ver m C Hn. unfold handle_request_tree.
+  eapply bind_returns; [apply st_lookup_returns; assumption|].
+  intros e m1 X1 (-> & Ho1).
+  destruct (lookup id (store (os m))) as [[asked|t]|] eqn:El.
+  1,3: (eapply returns_weaken; [apply ret_returns|]; intros a m' _ _ t0 E; discriminate).
+  destruct (ver =? 0).
+  all: eapply bind_returns; [apply send_returns|]; intros ok m2 X2 (_ & _ & Hs).
+  all: eapply returns_weaken; [apply ret_returns|]; intros a m' _ (_ & ->) t0 E Hr; inversion E; subst t0; apply Hs, Hr.
+Qed.
+
+Lemma handle_request_roster_returns : forall p rid nf m,
+  clean m -> mem_lk LStore (held m) = false ->
+  returns X (handle_request_roster all_fixed p rid nf) m
+          (fun _ m' =>
+             reachable p = true ->
+             In (ESend p (RRoster (match find (has_roster rid) (store (os m)) with
+                                   | Some (_, Have t) => ro_id (t_roster t) | _ => 0 end))) (evs m')).
+Proof.
+  intros p rid nf m C Hn. unfold handle_request_roster.
+  eapply bind_returns.
+  { unfold st_get_roster. eapply with_store_returns; [exact C|exact Hn|reflexivity|apply sfo_same]. }
+  intros oro m1 X1 (-> & Ho1).
+  eapply bind_returns; [apply send_returns|]. intros ok m2 X2 (_ & _ & Hs).
+  eapply returns_weaken; [apply ret_returns|]. intros a m' _ (_ & ->) Hr.
+  specialize (Hs Hr). destruct (find (has_roster rid) (store (os m))) as [[i [asked|t]]|]; exact Hs.
+Qed.
+
+
+(* the scan of the instance table: every listed instance has its tree *)
+Lemma scan_rosters_returns : forall rid l acc m,
+  clean m -> mem_lk LStore (held m) = false ->
+  (forall k, In k l -> exists t, lookup (tk_tree k) (store (os m)) = Some (Have t)) ->
+  returns X (scan_rosters rid l acc) m (fun _ m' => os m' = os m).
+Proof.
+  intros rid l. induction l as [|k r IH]; intros acc m C Hn Hl; cbn [scan_rosters].
+  - eapply returns_weaken; [apply ret_returns|]. intros a m' _ (_ & ->). reflexivity.
+  - eapply bind_returns; [apply st_lookup_returns; assumption|].
+    intros e m1 X1 (-> & Ho1). destruct (Hl k (or_introl eq_refl)) as (t & Ht). rewrite Ht.
+    eapply returns_weaken.
+    { apply IH; [eapply clean_ext; eassumption|rewrite (ext_held _ _ _ X1); exact Hn|].
+      intros k' Hk'. rewrite Ho1. apply Hl. right. exact Hk'. }
+    intros a m' _ H. congruence.
+Qed.
+
+Lemma handle_send_tree_marshal_returns : forall p tm m,
+  ready [] m ->
+  returns X (handle_send_tree_marshal all_fixed p tm) m (fun _ _ => True).
+Proof.
+  intros p tm m R. pose proof R as (C & Hh & Hi). unfold handle_send_tree_marshal.
+  destruct (tm_tree tm =? 0).
+  { eapply returns_weaken; [apply ret_returns|auto]. }
+  eapply bind_returns; [apply st_lookup_returns; [exact C|rewrite Hh; reflexivity]|].
+  intros e m1 X1 (-> & Ho1).
+  assert (R1 : ready [] m1) by (eapply ready_ext; eassumption).
+  destruct R1 as (C1 & H1 & I1).
+  destruct (lookup (tm_tree tm) (store (os m))).
+  2:{ eapply returns_weaken; [apply ret_returns|auto]. }
+  cbn [f26 all_fixed].
+  eapply bind_returns.
+  { apply locked_returns with (Q := fun _ m' => os m' = os m1); [exact C1|rewrite H1; reflexivity|hf|].
+    eapply bind_returns; [apply access_returns; reflexivity|]. intros [] m2 X2 Ho2.
+    eapply bind_returns; [apply get_returns|]. intros s m3 X3 (-> & ->).
+    eapply returns_weaken.
+    { apply scan_rosters_returns.
+      - eapply (clean_ext X (mkM (os m1) (LInst :: held m1) (evs m1)) m2); [exact C1|exact X2].
+      - rewrite (ext_held _ _ _ X2). cbn [held]. rewrite H1. reflexivity.
+      - intros k Hk. rewrite Ho2 in *. cbn [os] in *. apply I1, Hk. }
+    intros a m' _ H. rewrite H, Ho2. reflexivity. }
+  intros oro m2 X2 Ho2.
+  assert (R2 : ready [] m2) by (eapply ready_ext; [|eassumption]; repeat split; assumption).
+  destruct R2 as (C2 & H2 & I2).
+  destruct oro as [ro|].
+  - eapply returns_weaken; [apply handle_send_tree_returns; [exact C2|rewrite H2; reflexivity|exact I2]|auto].
+  - eapply bind_returns; [apply send_returns|]. intros ok m3 X3 _.
+    assert (R3 : ready [] m3) by (eapply ready_ext; [|eassumption]; repeat split; assumption).
+    destruct R3 as (C3 & H3 & I3).
+    apply locked_returns; [exact C3|rewrite H3; reflexivity|hf|].
+    eapply bind_returns; [apply access_returns; reflexivity|]. intros [] m4 X4 Ho4.
+    eapply returns_weaken.
+    { apply modify_returns. repeat split; cbn [set_ptm leaked store insts]. auto. }
+    auto.
+Qed.
+
+(* checkPendingTreeMarshal with its early return repaired is a plain critical section *)
+Lemma check_pending_tm_returns : forall ro m,
+  ready [] m ->
+  returns X (check_pending_tm all_fixed ro) m (fun _ _ => True).
+Proof.
+  intros ro m R. pose proof R as (C & Hh & Hi). unfold check_pending_tm.
+  set (F := fun tm => match make_tree all_fixed tm ro with
+                      | MTErr => ret tt | MTCrash c => panic c | MTOk t => store_peer_tree all_fixed t end).
+  (* run the acquire by hand *)
+  set (m0 := mkM (os m) [LPTree] (evs m)).
+  assert (Ea : acquire LPTree m = Ret tt m0).
+  { unfold acquire, m0. unfold clean in C. rewrite C, Hh. reflexivity. }
+  assert (C0 : clean m0) by exact C.
+  assert (P0 : clean m0 /\ held m0 = [LPTree] /\ insts_have (os m0)) by (repeat split; assumption).
+  (* the body up to the release *)
+  assert (Body : returns X (access TPTM ;; s <- get ;;
+                            miter F (filter (fun tm => tm_roster tm =? ro_id ro) (ptm s))) m0 (fun _ _ => True)).
+  { eapply bind_returns; [apply access_returns; reflexivity|]. intros [] m1 X1 Ho1.
+    eapply bind_returns; [apply get_returns|]. intros s m2 X2 (-> & ->).
+    eapply returns_weaken.
+    { apply miter_returns with (P := fun m => clean m /\ held m = [LPTree] /\ insts_have (os m)).
+      - eapply ready_ext; eassumption.
+      - intros tm m3 (C3 & H3 & I3). unfold F.
+        destruct (make_tree_fixed tm ro) as [Em|(c & _ & _ & Em)]; rewrite Em.
+        + eapply returns_weaken; [apply ret_returns|]. intros a m' _ (_ & ->). repeat split; assumption.
+        + eapply returns_weaken; [apply store_peer_tree_returns; [exact C3|rewrite H3; reflexivity|exact I3]|].
+          intros a m' Hx _. eapply (ready_ext X [LPTree]); [|exact Hx]. repeat split; assumption. }
+    auto. }
+  destruct Body as ([] & m1 & E1 & X1 & _).
+  exists tt, (mkM (os m1) [] (evs m1)). split; [|split; [|exact I]].
+  - unfold bind at 1. rewrite Ea.
+    unfold bind in E1. unfold bind.
+    destruct (access TPTM m0) as [[] ma|] eqn:Eacc; [|discriminate].
+    unfold get in *. 
+    destruct (filter (fun tm => tm_roster tm =? ro_id ro) (ptm (os ma))) as [|tm0 rest] eqn:Ef.
+    + cbn [miter] in E1. unfold ret in E1. inversion E1; subst m1. cbn [f08 all_fixed].
+      unfold release. rewrite (ext_held _ _ _ X1). reflexivity.
+    + fold F. rewrite E1. unfold release. rewrite (ext_held _ _ _ X1). reflexivity.
+  - destruct X1 as [h l v k i d e]. constructor; cbn [os held evs] in *; auto.
+Qed.
+
+Lemma handle_config_returns : forall dest m,
+  ready [] m -> returns X (handle_config dest) m (fun _ _ => True).
+Proof.
+  intros dest m (C & Hh & Hi). unfold handle_config.
+  apply locked_returns; [exact C|rewrite Hh; reflexivity|hf|].
+  eapply bind_returns; [apply access_returns; reflexivity|]. intros [] m1 X1 Ho1.
+  eapply returns_weaken.
+  { apply modify_returns. destruct dest; repeat split; cbn [set_configs leaked store insts]; auto. }
+  auto.
+Qed.
+
+(* Overlay.Process: every envelope *)
+Lemma process_returns : forall p cfg nf msg m,
+  ready [] m -> returns X (process all_fixed p cfg nf msg) m (fun _ _ => True).
+Proof.
+  intros p cfg nf msg m R. pose proof R as (C & Hh & Hi). unfold process.
+  destruct cfg.
+  { destruct msg; try (eapply returns_weaken; [apply ret_returns|auto]). apply handle_config_returns, R. }
+  destruct msg as [from to b|id ver|tm ro|tm|rid|ro|d].
+  - destruct b; try (eapply returns_weaken; [apply transmit_returns; exact R|auto]).
+    eapply returns_weaken; [apply ret_returns|auto].
+  - eapply returns_weaken; [apply handle_request_tree_returns; [exact C|rewrite Hh; reflexivity]|auto].
+  - eapply returns_weaken; [apply handle_send_tree_returns; [exact C|rewrite Hh; reflexivity|exact Hi]|auto].
+  - apply handle_send_tree_marshal_returns, R.
+  - eapply returns_weaken; [apply handle_request_roster_returns; [exact C|rewrite Hh; reflexivity]|auto].
+  - unfold handle_send_roster. destruct (ro_id ro =? 0).
+    + eapply returns_weaken; [apply ret_returns|auto].
+    + apply check_pending_tm_returns, R.
+  - eapply returns_weaken; [apply ret_returns|auto].
+Qed.
+
+End Fixed.
+
+(* which tree ids an operation may give a new content *)
+Definition touches (o : op) : nat -> Prop :=
+  match o with LocalTree t => fun id => id = t_id t | _ => noX end.
+
+Lemma run_op_returns : forall o m,
+  ready [] m -> returns (touches o) (run_op all_fixed o) m (fun _ _ => True).
+Proof.
+  intros o m R. pose proof R as (C & Hh & Hi). destruct o as [p cfg nf msg|t|k]; cbn [run_op touches].
+  - apply process_returns, R.
+  - apply register_tree_returns; [exact R|reflexivity].
+  - apply locked_returns; [exact C|rewrite Hh; reflexivity|intros a m0 H _; exact I|].
+    eapply returns_weaken; [apply node_delete_returns|auto]; [exact C|cbn [held]; rewrite Hh; reflexivity|reflexivity].
+Qed.
+
+(* ---- Part 3: steps and histories of the repaired model ------------------------------------ *)
+
+Definition Inv (s : ostate) : Prop := leaked s = [] /\ insts_have s.
+
+Lemma init_inv : Inv init.
+Proof. split; [reflexivity|]. intros k []. Qed.
+
+Lemma set_leaked_nil : forall s, leaked s = [] -> set_leaked s (leaked s ++ []) = s.
+Proof. intros [a b c d e f g h] H. cbn in *. subst h. reflexivity. Qed.
+
+Lemma forallb_rev : forall A (f : A -> bool) l, forallb f (rev l) = forallb f l.
+Proof.
+  intros A f l. induction l as [|x r IH]; [reflexivity|].
+  cbn [rev forallb]. rewrite forallb_app, IH. cbn [forallb]. rewrite andb_true_r. apply andb_comm.
+Qed.
+
+(* from a returning run of the operation to the step *)
+Lemma step_of_returns : forall s o (Q : unit -> mst -> Prop),
+  Inv s ->
+  returns (touches o) (run_op all_fixed o) (mkM s [] []) Q ->
+  exists m', step all_fixed s o = mkR (os m') (rev (evs m')) Ok /\
+             ext (touches o) (mkM s [] []) m' /\ Q tt m'.
+Proof.
+  intros s o Q (Hl & Hi) ([] & m' & E & Hx & Hq). exists m'. split; [|auto].
+  unfold step. rewrite E.
+  rewrite (ext_held _ _ _ Hx). cbn [held].
+  assert (L : leaked (os m') = []) by (rewrite (ext_leaked _ _ _ Hx); exact Hl).
+  rewrite set_leaked_nil by exact L. reflexivity.
+Qed.
+
+Theorem step_safe : forall s o,
+  Inv s ->
+  r_out (step all_fixed s o) = Ok /\
+  Inv (r_state (step all_fixed s o)) /\
+  disciplined (r_events (step all_fixed s o)) = true /\
+  (forall id t, ~ touches o id -> lookup id (store s) = Some (Have t) ->
+                lookup id (store (r_state (step all_fixed s o))) = Some (Have t)).
+Proof.
+  intros s o I. pose proof I as (Hl & Hi).
+  destruct (step_of_returns s o (fun _ _ => True) I) as (m' & E & Hx & _).
+  { apply run_op_returns. repeat split; assumption. }
+  rewrite E. cbn [r_out r_state r_events]. split; [reflexivity|]. split; [|split].
+  - split; [rewrite (ext_leaked _ _ _ Hx); exact Hl|apply (ext_insts _ _ _ Hx), Hi].
+  - unfold disciplined. rewrite forallb_rev. apply (ext_disc _ _ _ Hx). reflexivity.
+  - intros id t Hn Ht. apply (ext_keeps _ _ _ Hx); assumption.
+Qed.
+
+Lemma run_cons : forall fx s o ops, run fx s (o :: ops) = run fx (r_state (step fx s o)) ops.
 Proof. reflexivity. Qed.
+
+(* for every finite history of envelopes and local calls, from every state with no
+   leaked mutex in which every listed instance has its tree: no step crashes or
+   blocks, no mutex stays locked, every table access is made under its mutex *)
+Theorem trace_safe : forall ops s,
+  Inv s ->
+  Forall (fun r => r_out r = Ok /\ leaked (r_state r) = [] /\ disciplined (r_events r) = true)
+         (trace all_fixed s ops) /\
+  Inv (run all_fixed s ops).
+Proof.
+  induction ops as [|o r IH]; intros s I; cbn [trace].
+  - split; [constructor|exact I].
+  - destruct (step_safe s o I) as (Ho & I' & D & _).
+    destruct (IH _ I') as (F & I'').
+    split; [|rewrite run_cons; exact I''].
+    constructor; [|exact F]. split; [exact Ho|]. split; [apply I'|exact D].
+Qed.
+
+(* a tree the server has is never changed by what peers send *)
+Theorem known_tree_stays : forall ops s id t,
+  Inv s ->
+  (forall o, In o ops -> ~ touches o id) ->
+  lookup id (store s) = Some (Have t) ->
+  lookup id (store (run all_fixed s ops)) = Some (Have t).
+Proof.
+  induction ops as [|o r IH]; intros s id t I Hn Ht; [exact Ht|].
+  rewrite run_cons. destruct (step_safe s o I) as (_ & I' & _ & K).
+  apply IH; [exact I'| |].
+  - intros o' Ho'. apply Hn. right. exact Ho'.
+  - apply K; [apply Hn; left; reflexivity|exact Ht].
+Qed.
+
+(* reachable states *)
+Corollary reachable_inv : forall ops, Inv (run all_fixed init ops).
+Proof. intros ops. apply trace_safe, init_inv. Qed.
+
+(* ---- Part 4: the next legitimate operation is served ------------------------------------------ *)
+
+Lemma In_rev_iff : forall A (x : A) l, In x (rev l) <-> In x l.
+Proof. intros. symmetry. apply in_rev. Qed.
+
+Theorem serves_tree_request : forall s p nf id ver t,
+  Inv s -> lookup id (store s) = Some (Have t) -> reachable p = true ->
+  let r := step all_fixed s (Recv p false nf (MReqTree id ver)) in
+  r_out r = Ok /\
+  In (ESend p (if ver =? 0 then RTreeMarshal (t_id t) (ro_id (t_roster t)) (root_node t)
+               else RRespTree (t_id t) (ro_id (t_roster t)) (root_node t))) (r_events r).
+Proof.
+  intros s p nf id ver t I Ht Hr. pose proof I as (Hl & Hi).
+  edestruct (step_of_returns s (Recv p false nf (MReqTree id ver))) as (m' & E & Hx & Hq); [exact I| |].
+  { cbn [run_op process touches]. apply handle_request_tree_returns; [exact Hl|reflexivity]. }
+  cbn zeta. rewrite E. cbn [r_out r_events]. split; [reflexivity|].
+  apply In_rev_iff. apply (Hq t); assumption.
+Qed.
+
+Theorem serves_roster_request : forall s p nf rid i t,
+  Inv s -> In (i, Have t) (store s) -> ro_id (t_roster t) = rid -> reachable p = true ->
+  let r := step all_fixed s (Recv p false nf (MReqRoster rid)) in
+  r_out r = Ok /\ In (ESend p (RRoster rid)) (r_events r).
+Proof.
+  intros s p nf rid i t I Hin Hro Hr. pose proof I as (Hl & Hi).
+  edestruct (step_of_returns s (Recv p false nf (MReqRoster rid))) as (m' & E & Hx & Hq); [exact I| |].
+  { cbn [run_op process touches]. apply handle_request_roster_returns; [exact Hl|reflexivity]. }
+  cbn zeta. rewrite E. cbn [r_out r_events]. split; [reflexivity|].
+  apply In_rev_iff. specialize (Hq Hr). cbn [os] in Hq.
+  destruct (find (has_roster rid) (store s)) as [[j e]|] eqn:Ef.
+  - apply find_some in Ef as (_ & Hh). unfold has_roster in Hh. cbn [snd] in Hh.
+    destruct e as [asked|t']; [discriminate|]. apply Nat.eqb_eq in Hh. rewrite Hh in Hq. exact Hq.
+  - exfalso. pose proof (find_none _ _ Ef _ Hin) as Hn. unfold has_roster in Hn. cbn [snd] in Hn.
+    rewrite Hro, Nat.eqb_refl in Hn. discriminate.
+Qed.
+
+(* a protocol message of a legitimate run on a stored tree reaches the handler *)
+Theorem serves_protocol_message : forall s p nf from k t f,
+  Inv s -> lookup (tk_tree k) (store s) = Some (Have t) ->
+  will_deliver s t (mkP p from k BPing) f ->
+  let r := step all_fixed s (Recv p false nf (MProto from (Some k) BPing)) in
+  r_out r = Ok /\ In (EDeliver k (tk_node f)) (r_events r).
+Proof.
+  intros s p nf from k t f I Ht W. pose proof I as (Hl & Hi).
+  edestruct (step_of_returns s (Recv p false nf (MProto from (Some k) BPing))) as (m' & E & Hx & Hq); [exact I| |].
+  { cbn [run_op process touches]. apply transmit_returns. repeat split; assumption. }
+  cbn zeta. rewrite E. cbn [r_out r_events]. split; [reflexivity|].
+  apply In_rev_iff. destruct (Hq k eq_refl) as (Hd & _). apply (Hd t f); assumption.
+Qed.
+
+(* ... on a tree the server does not have: the message is parked and its sender is
+   asked for the tree (also when the tree was requested before from other peers) *)
+Theorem asks_sender_for_tree : forall s p nf from k b,
+  Inv s -> b <> BGarbage -> reachable p = true ->
+  (lookup (tk_tree k) (store s) = None \/
+   exists asked, lookup (tk_tree k) (store s) = Some (Req asked) /\ mem_nat p asked = false) ->
+  let r := step all_fixed s (Recv p false nf (MProto from (Some k) b)) in
+  r_out r = Ok /\
+  In (ESend p (RReqTree (tk_tree k))) (r_events r) /\
+  In (mkP p from k b) (parked (r_state r)) /\
+  exists asked', lookup (tk_tree k) (store (r_state r)) = Some (Req asked').
+Proof.
+  intros s p nf from k b I Hb Hr Hs. pose proof I as (Hl & Hi).
+  edestruct (step_of_returns s (Recv p false nf (MProto from (Some k) b))) as (m' & E & Hx & Hq); [exact I| |].
+  { cbn [run_op process touches]. destruct b; [| |contradiction]; apply transmit_returns; repeat split; assumption. }
+  cbn zeta. rewrite E. cbn [r_out r_events r_state]. split; [reflexivity|].
+  assert (Hq' : forall k0, Some k = Some k0 -> _) by (destruct b; [exact Hq|exact Hq|contradiction]).
+  destruct (Hq' k eq_refl) as (_ & Hp).
+  destruct Hp as (Hpark & Hask).
+  { intros t Ht. cbn [os] in Ht. destruct Hs as [Hs|(a & Hs & _)]; rewrite Hs in Ht; discriminate. }
+  destruct (Hask Hr Hs) as (Hsend & Hreq).
+  split; [apply In_rev_iff; exact Hsend|]. split; assumption.
+Qed.
+
+(* ... and when the requested tree arrives, the parked message reaches the handler and
+   the tree is stored as it was sent *)
+Theorem serves_after_tree_arrives : forall s p nf tm ro t pm f asked,
+  Inv s -> tm_tree tm <> 0 -> make_tree all_fixed tm ro = MTOk t ->
+  lookup (t_id t) (store s) = Some (Req asked) ->
+  filter (fun pm => tk_tree (p_to pm) =? t_id t) (parked s) = [pm] ->
+  will_deliver s t pm f ->
+  let r := step all_fixed s (Recv p false nf (MRespTree (Some tm) (Some ro))) in
+  r_out r = Ok /\
+  lookup (t_id t) (store (r_state r)) = Some (Have t) /\
+  In (EDeliver (p_to pm) (tk_node f)) (r_events r).
+Proof.
+  intros s p nf tm ro t pm f asked I Hz Hm Hreq Hf W. pose proof I as (Hl & Hi).
+  edestruct (step_of_returns s (Recv p false nf (MRespTree (Some tm) (Some ro)))) as (m' & E & Hx & Hq); [exact I| |].
+  { cbn [run_op process touches]. apply handle_send_tree_returns; [exact Hl|reflexivity|exact Hi]. }
+  cbn zeta. rewrite E. cbn [r_out r_events r_state]. split; [reflexivity|].
+  destruct (Hq tm ro t pm f eq_refl eq_refl Hz Hm (ex_intro _ asked Hreq) Hf W) as (Hs & Hd).
+  split; [apply Hs; intros []|apply In_rev_iff; exact Hd].
+Qed.
+
+(* ---- Part 5: the unrepaired variants -------------------------------------------------------- *)
+
+(* the genuine roster (servers 1, 4 = this server, 2) and trees of the harness *)
+Definition roG : roster := mkRo 1 [mkMem 1 true; mkMem 4 true; mkMem 2 true].
+Definition T1 : stree := mkTree 1 roG (TM 1 1 [TM 4 4 []; TM 2 2 []]).
+Definition tm2 : tmarshal := mkTMar 2 1 [TM 1 1 [TM 4 4 [TM 2 2 []]]].
+Definition T2 : stree := mkTree 2 roG (TM 1 1 [TM 4 4 [TM 2 2 []]]).
+Definition roH : roster := mkRo 5 [mkMem 3 true].
+Definition kx (tree round : nat) : token := mkTok 1 tree 1 0 round 4.
+Definition kfrom (tree round node : nat) : token := mkTok 1 tree 1 0 round node.
+Definition ping (p tree round from : nat) : op :=
+  Recv p false false (MProto (Some (kfrom tree round from)) (Some (kx tree round)) BPing).
+
+Definition only (f : nat) : fixes :=   (* every repair but one *)
+  mkFixes (negb (f =? 5)) (negb (f =? 6)) (negb (f =? 7)) (negb (f =? 8)) (negb (f =? 26))
+          (negb (f =? 70)) (negb (f =? 71)) (negb (f =? 72)).
+
+Definition outs (fx : fixes) (ops : list op) : list outcome := map r_out (trace fx init ops).
+
+(* F05: one message without destination token *)
+Lemma f05_refuted :
+  exists ops, In (Crashed CNilTo) (outs (only 5) ops) /\ ~ In (Crashed CNilTo) (outs all_fixed ops).
+Proof.
+  exists [Recv 3 false false (MProto (Some (kfrom 1 20 1)) None BPing)].
+  vm_compute. split; [auto|]. intros [H|[]]. discriminate.
+Qed.
+
+(* F06: an empty description for a requested tree *)
+Lemma f06_refuted :
+  exists ops, In (Crashed CNoChildren) (outs (only 6) ops) /\ outs all_fixed ops = [Ok; Ok].
+Proof.
+  exists [ping 1 2 12 1; Recv 3 false false (MRespTree (Some (mkTMar 2 1 [])) (Some roG))].
+  vm_compute. auto.
+Qed.
+
+(* ... also through the deprecated pair, where the panic leaves pendingTreeLock locked *)
+Lemma f06_deprecated_refuted :
+  exists ops, In (Crashed CNoChildren) (outs (only 6) ops) /\
+              leaked (run (only 6) init ops) = [LPTree] /\ outs all_fixed ops = [Ok; Ok; Ok].
+Proof.
+  exists [ping 1 2 12 1; Recv 3 false false (MTreeMarshal (mkTMar 2 5 [])); Recv 3 false false (MRoster roH)].
+  vm_compute. auto.
+Qed.
+
+(* F07: a roster request while a tree is requested *)
+Lemma f07_refuted :
+  exists ops, In (Crashed CNilTreeInStore) (outs (only 7) ops) /\ outs all_fixed ops = [Ok; Ok].
+Proof.
+  exists [ping 1 2 12 1; Recv 3 false false (MReqRoster 9)].
+  vm_compute. auto.
+Qed.
+
+(* F08: a roster nobody waits for; the next one never returns *)
+Lemma f08_refuted :
+  exists ops, leaked (run (only 8) init ops) = [LPTree] /\
+              outs (only 8) (ops ++ ops) = [Ok; Wedged LPTree] /\
+              outs all_fixed (ops ++ ops) = [Ok; Ok].
+Proof.
+  exists [Recv 3 false false (MRoster roH)]. vm_compute. auto.
+Qed.
+
+(* F26: the instance table is read without its mutex *)
+Lemma f26_refuted :
+  exists ops, existsb (fun r => negb (disciplined (r_events r))) (trace (only 26) init ops) = true /\
+              existsb (fun r => negb (disciplined (r_events r))) (trace all_fixed init ops) = false.
+Proof.
+  exists [ping 1 2 12 1; Recv 3 false false (MTreeMarshal (mkTMar 2 5 [TM 3 3 []]))].
+  vm_compute. auto.
+Qed.
+
+(* F70: a roster member without public key *)
+Lemma f70_refuted :
+  exists ops, In (Crashed CNilPublic) (outs (only 70) ops) /\ outs all_fixed ops = [Ok; Ok].
+Proof.
+  exists [ping 1 2 12 1;
+          Recv 3 false false (MRespTree (Some tm2) (Some (mkRo 1 [mkMem 1 true; mkMem 4 true; mkMem 2 false])))].
+  vm_compute. auto.
+Qed.
+
+(* F71: a silent peer's message for a tree keeps the legitimate sender from being asked *)
+Lemma f71_refuted :
+  exists ops o, r_out (step (only 71) (run (only 71) init ops) o) = Ok /\
+                sent 2 (RReqTree 3) (r_events (step (only 71) (run (only 71) init ops) o)) = false /\
+                sent 2 (RReqTree 3) (r_events (step all_fixed (run all_fixed init ops) o)) = true.
+Proof.
+  exists [ping 3 3 20 2], (ping 2 3 92 2). vm_compute. auto.
+Qed.
+
+(* F72: a peer's description replaces a tree the server has; the legitimate run is dropped *)
+Lemma f72_refuted :
+  exists ops o, lookup 1 (store (run (only 72) init ops)) <> Some (Have T1) /\
+                delivered (kx 1 90) (r_events (step (only 72) (run (only 72) init ops) o)) = false /\
+                lookup 1 (store (run all_fixed init ops)) = Some (Have T1) /\
+                delivered (kx 1 90) (r_events (step all_fixed (run all_fixed init ops) o)) = true.
+Proof.
+  exists [LocalTree T1; Recv 3 false false (MRespTree (Some (mkTMar 1 5 [TM 3 3 []])) (Some roH))], (ping 1 1 90 1).
+  vm_compute. split; [discriminate|auto].
+Qed.
+
+(* F73 (recorded, not repaired): the first answer to a pending tree request wins, whatever it
+   contains; the root's answer is then ignored and the run that parked its message is dropped *)
+Lemma f73_forged_requested_tree :
+  exists ops, lookup 2 (store (run all_fixed init ops)) <> Some (Have T2) /\
+              existsb (fun r => delivered (kx 2 12) (r_events r)) (trace all_fixed init ops) = false /\
+              outs all_fixed ops = [Ok; Ok; Ok].
+Proof.
+  exists [ping 1 2 12 1;
+          Recv 3 false false (MRespTree (Some (mkTMar 2 5 [TM 3 3 []])) (Some roH));
+          Recv 1 false false (MRespTree (Some tm2) (Some roG))].
+  vm_compute. split; [discriminate|auto].
+Qed.
+
+(* the same history without the forged answer is served (hypotheses of the theorems of Part 4 are satisfiable) *)
+Example served_when_unforged :
+  existsb (fun r => delivered (kx 2 12) (r_events r))
+          (trace all_fixed init [ping 1 2 12 1; Recv 1 false false (MRespTree (Some tm2) (Some roG))]) = true /\
+  lookup 2 (store (run all_fixed init [ping 1 2 12 1; Recv 1 false false (MRespTree (Some tm2) (Some roG))])) = Some (Have T2).
+Proof. vm_compute. auto. Qed.
+
+Example will_deliver_example :
+  will_deliver (run all_fixed init [LocalTree T1]) T1 (mkP 1 (Some (kfrom 1 90 1)) (kx 1 90) BPing) (kfrom 1 90 1).
+Proof.
+  repeat split; try reflexivity.
+  - right. split; [discriminate|reflexivity].
+  - exists 1. split; reflexivity.
+Qed.
+
+(* the pinned code (no repair at all): the whole corpus of witnesses at once *)
+Lemma pinned_code_refuted :
+  In (Crashed CNilTo) (outs none_fixed [Recv 3 false false (MProto (Some (kfrom 1 20 1)) None BPing)]) /\
+  In (Crashed CNoChildren) (outs none_fixed [ping 1 2 12 1; Recv 3 false false (MRespTree (Some (mkTMar 2 1 [])) (Some roG))]) /\
+  In (Crashed CNilTreeInStore) (outs none_fixed [ping 1 2 12 1; Recv 3 false false (MReqRoster 9)]) /\
+  leaked (run none_fixed init [Recv 3 false false (MRoster roH)]) = [LPTree].
+Proof. vm_compute. auto 10. Qed.
